@@ -83,6 +83,8 @@ func (cr *cursor) updatePictoSequence() bool {
 		} else if cr.grapheme == ucd.GraphemeBreakZWJ {
 			// close the variable part of the sequence with (ZWJ)
 			cr.pictoSequence = seenPictoZWJ
+		} else if cr.isExtentedPic {
+			// restart the sequence with this rune
 		} else {
 			// stop the sequence
 			cr.pictoSequence = noPictoSequence
